@@ -945,11 +945,12 @@ def _pic_auto_shape(w, deck, a):
 
 # ---- DML ------------------------------------------------------------------------------------------------
 
+# angles within half a 1/60000-degree quantum of a full turn (from either side) are in the pool: they round up to 360 degrees
 def g_fill(r):
     return {"mode": r.choice(["solid", "solid", "gradient", "patterned", "background", "none_read"]),
             "rgb": "%06X" % r.randint(0, 0xFFFFFF), "theme": r.choice([None, "ACCENT_1", "ACCENT_3", "TEXT_2"]),
             "pattern": r.choice(["CROSS", "DIVOT", "PERCENT_50", "WAVE", "ZIG_ZAG"]),
-            "angle": r.choice([None, 0, 45, 90.5, 359, 360, 720, -90, 359.9999]), "bright": r.choice([None, 0.3, -0.5]),
+            "angle": r.choice([None, 0, 45, 90.5, 359, 360, 720, -90, 359.9999, 1e-6, 0.000005, 360.000004, -359.999997, 359.999997]), "bright": r.choice([None, 0.3, -0.5]),
             "stop": r.choice([None, 0, 1])}
 
 
